@@ -459,6 +459,10 @@ type zzC0102Srv struct {
 	pFlag     bool
 	pDeadline string
 	faultGen  int
+	// nested: the persistent client is identified by a /24 between an outer
+	// /16 and an inner /28 client; innerPresent: the /28 client exists now.
+	// otherZone: pause schedules are in another time zone.
+	nested, innerPresent, otherZone bool
 	// inFlight: a pause has run out and the server's write-back of
 	// "protection on" is held in flight (see expireInFlight).
 	inFlight bool
@@ -504,18 +508,77 @@ type zzC0102List struct {
 var zzC0102ListKeys = []string{"allow", "block", "block2", "offallow", "offblock"}
 
 // zzC0102Services returns the blocked-services setting: id is the service of
-// the set, the schedule pauses it or not.
-func zzC0102Services(svc, id string) (b *filtering.BlockedServices) {
+// the set; "paused" means that the pause schedule is in effect NOW, i.e. now,
+// read in the schedule's time zone, lies in the range of that zone's current
+// day; "active" that it is not.  otherZone asks for a schedule in a time zone
+// whose current weekday differs from the server-local one (see
+// zzC0102OtherZone), with different ranges on the two days.
+func zzC0102Services(svc, id string, otherZone bool) (b *filtering.BlockedServices) {
 	b = &filtering.BlockedServices{Schedule: schedule.EmptyWeekly()}
-	switch svc {
-	case "active":
-		b.IDs = []string{id}
-	case "paused":
-		b.IDs = []string{id}
-		b.Schedule = schedule.FullWeekly()
+	if svc != "active" && svc != "paused" {
+		return b
 	}
 
+	b.IDs = []string{id}
+	zone, zoneDay, localDay := zzC0102OtherZone()
+	if !otherZone || zone == "" {
+		if svc == "paused" {
+			b.Schedule = schedule.FullWeekly()
+		}
+
+		return b
+	}
+
+	// paused: the whole day that it is in the schedule's zone, nothing on the
+	// weekday that it is locally; active: the converse.
+	fullDay := svc == "paused"
+	days := map[string]any{"time_zone": zone}
+	names := []string{"sun", "mon", "tue", "wed", "thu", "fri", "sat"}
+	full := map[string]any{"start": 0, "end": 24 * 3600 * 1000}
+	for d := time.Sunday; d <= time.Saturday; d++ {
+		switch {
+		case d == zoneDay && fullDay, d == localDay && !fullDay:
+			days[names[d]] = full
+		case d != zoneDay && d != localDay && d%2 == 0:
+			// other days: something, so that the week is not uniform
+			days[names[d]] = map[string]any{"start": 3600 * 1000, "end": 7200 * 1000}
+		}
+	}
+
+	js, _ := json.Marshal(days)
+	w := &schedule.Weekly{}
+	if err := w.UnmarshalJSON(js); err != nil {
+		// No such zone on this system: the same-zone schedule.
+		if svc == "paused" {
+			b.Schedule = schedule.FullWeekly()
+		}
+
+		return b
+	}
+	b.Schedule = w
+
 	return b
+}
+
+// zzC0102OtherZone picks, at run time, a fixed-offset zone whose current weekday
+// differs from the server-local one, and that stays so for the next half hour
+// (zone = "" if there is none).
+func zzC0102OtherZone() (zone string, zoneDay, localDay time.Weekday) {
+	now := time.Now()
+	later := now.Add(30 * time.Minute)
+	for _, name := range []string{"Etc/GMT-14", "Etc/GMT+12", "Etc/GMT-13", "Etc/GMT+11"} {
+		loc, err := time.LoadLocation(name)
+		if err != nil {
+			continue
+		}
+
+		zd, ld := now.In(loc).Weekday(), now.Local().Weekday()
+		if zd != ld && later.In(loc).Weekday() == zd && later.Local().Weekday() == ld {
+			return name, zd, ld
+		}
+	}
+
+	return "", 0, 0
 }
 
 // zzC0102TLSConn is a DoT connection whose client sent the server name sn.
@@ -563,15 +626,79 @@ func (z *zzC0102Srv) render(cfg *zzC0102Cfg, rng *rand.Rand, split bool) (byKey 
 }
 
 func (z *zzC0102Srv) persistent(c zzC0102Client) (p *client.Persistent) {
-	return &client.Persistent{
+	p = &client.Persistent{
 		Name: zzC0102Kid, UID: client.MustNewUID(),
-		IPs:                   []netip.Addr{netip.MustParseAddr(zzC0102C1)},
 		ClientIDs:             []string{zzC0102KidCID},
 		UseOwnSettings:        c.UseOwn,
 		FilteringEnabled:      c.Filt,
 		UseOwnBlockedServices: c.Svc != "inherit",
-		BlockedServices:       zzC0102Services(c.Svc, zzC0102Svc2),
+		BlockedServices:       zzC0102Services(c.Svc, zzC0102Svc2, z.otherZone),
 	}
+	if z.nested {
+		// identified by the /24 around c1, between the "outer" /16 and the
+		// "inner" /28 clients (see neighbours)
+		p.Subnets = []netip.Prefix{netip.MustParsePrefix(zzC0102C1CIDR)}
+	} else {
+		p.IPs = []netip.Addr{netip.MustParseAddr(zzC0102C1)}
+	}
+
+	return p
+}
+
+// neighbours returns the persistent clients around the one under test when it
+// is identified by a subnet: "outer", a /16 with a different base address that
+// contains c1 and c2 and changes nothing (global settings), and "inner", a /28
+// inside the /24 that does not contain c1, with settings of its own.  The
+// most specific subnet containing an address decides whose request it is, so
+// neither changes which client c1 and c2 are.
+func (z *zzC0102Srv) neighbours() (outer, inner *client.Persistent) {
+	outer = &client.Persistent{
+		Name: "outer", UID: client.MustNewUID(),
+		Subnets:         []netip.Prefix{netip.MustParsePrefix("10.77.0.0/16")},
+		BlockedServices: zzC0102Services("none", zzC0102Svc2, false),
+	}
+	inner = &client.Persistent{
+		Name: "inner", UID: client.MustNewUID(),
+		Subnets:          []netip.Prefix{netip.MustParsePrefix("10.77.1.32/28")},
+		UseOwnSettings:   true,
+		FilteringEnabled: !z.cfg.Client.Filt,
+		BlockedServices:  zzC0102Services("none", zzC0102Svc2, false),
+	}
+
+	return outer, inner
+}
+
+// editClients is an edit history of the client registry that leaves every
+// request's client unchanged (DnsPipeline!EditClients): the "inner" client is
+// updated (= removed and added again), or removed, or added back.
+func (z *zzC0102Srv) editClients(rng *rand.Rand) (err error) {
+	if !z.nested {
+		return nil
+	}
+
+	ctx := context.Background()
+	_, inner := z.neighbours()
+	switch k := rng.Intn(3); {
+	case !z.innerPresent:
+		z.ops = append(z.ops, "(clients: inner /28 added again)")
+		err = z.st.Add(ctx, inner)
+		z.innerPresent = true
+	case k == 0:
+		z.ops = append(z.ops, "(clients: inner /28 removed)")
+		if !z.st.RemoveByName(ctx, "inner") {
+			err = fmt.Errorf("harness: inner client not removed")
+		}
+		z.innerPresent = false
+	default:
+		z.ops = append(z.ops, "(clients: inner /28 updated)")
+		if prev, ok := z.st.FindByName("inner"); ok {
+			inner.UID = prev.UID
+		}
+		inner.Tags = []string{"device_pc"}
+		err = z.st.Update(ctx, "inner", inner)
+	}
+
+	return err
 }
 
 // zzC0102Build builds the real objects for cfg under dir (an absolute path).
@@ -646,9 +773,42 @@ func zzC0102Build(cfg *zzC0102Cfg, dir string, rng *rand.Rand) (z *zzC0102Srv, e
 		return nil, fmt.Errorf("client storage: %w", err)
 	}
 
-	if cfg.Client.Known {
-		if err = z.st.Add(ctx, z.persistent(cfg.Client)); err != nil {
+	// Half of the servers identify the persistent client by nested subnets,
+	// half of them take their pause schedules from another time zone.
+	z.nested, z.otherZone = rng.Intn(2) == 0, rng.Intn(2) == 0
+	if z.nested {
+		outer, inner := z.neighbours()
+		// in a seeded order: the index must not depend on it
+		first, second := outer, inner
+		if rng.Intn(2) == 0 {
+			first, second = inner, outer
+		}
+		if err = z.st.Add(ctx, first); err != nil {
 			return nil, fmt.Errorf("adding client: %w", err)
+		}
+		if cfg.Client.Known && rng.Intn(2) == 0 {
+			if err = z.st.Add(ctx, z.persistent(cfg.Client)); err != nil {
+				return nil, fmt.Errorf("adding client: %w", err)
+			}
+		}
+		if err = z.st.Add(ctx, second); err != nil {
+			return nil, fmt.Errorf("adding client: %w", err)
+		}
+		z.innerPresent = true
+	}
+
+	if cfg.Client.Known {
+		if _, ok := z.st.FindByName(zzC0102Kid); !ok {
+			if err = z.st.Add(ctx, z.persistent(cfg.Client)); err != nil {
+				return nil, fmt.Errorf("adding client: %w", err)
+			}
+		}
+	}
+
+	if rng.Intn(2) == 0 {
+		// an edit history before the first question
+		if err = z.editClients(rng); err != nil {
+			return nil, fmt.Errorf("editing clients: %w", err)
 		}
 	}
 
@@ -657,7 +817,7 @@ func zzC0102Build(cfg *zzC0102Cfg, dir string, rng *rand.Rand) (z *zzC0102Srv, e
 		BlockingIPv4:         cust4,
 		BlockingIPv6:         cust6,
 		ApplyClientFiltering: z.st.ApplyClientFiltering,
-		BlockedServices:      zzC0102Services(cfg.Svc, zzC0102Svc),
+		BlockedServices:      zzC0102Services(cfg.Svc, zzC0102Svc, z.otherZone),
 		DataDir:              dir,
 		BlockingMode:         filtering.BlockingMode(cfg.Mode),
 		Filters:              blockLists,
@@ -942,6 +1102,9 @@ func (z *zzC0102Srv) reconfigure(cfg *zzC0102Cfg, rng *rand.Rand) (err error) {
 		if !z.st.RemoveByName(ctx, zzC0102Kid) {
 			err = fmt.Errorf("harness: client not removed")
 		}
+	}
+	if err == nil && rng.Intn(3) == 0 {
+		err = z.editClients(rng)
 	}
 	z.cfg = cfg
 	z.settleUntil = time.Now().Add(zzC0102Settle())
